@@ -146,6 +146,18 @@ def call(S, ev, mag: int = 0):
         r = apply(S, ev, mag)
         if c05.snapshot(S) != before:
             return {"kind": "operand-changed"}
+        if ev["op"] == "div" and ev["args"]["rhs"]["kind"] == "scalar" and isinstance(r, (ttb.tensor, ttb.sptensor)) \
+                and S.vals.dtype.kind == "f" and not mag:
+            # every stored quotient is THE correctly rounded IEEE quotient (what the expanded array gives), not a
+            # product with a rounded reciprocal: compared bit for bit with numpy's own division
+            c = float(ev["args"]["rhs"]["val"])
+            if c != 0:
+                got = r.full().data if isinstance(r, ttb.sptensor) else r.data
+                ref = np.zeros(S.shape)
+                if S.nnz:
+                    ref[tuple(S.subs.T)] = S.vals[:, 0] / c
+                if not np.array_equal(got, ref):
+                    return {"kind": "inexact", "msg": "a quotient by a scalar is not the correctly rounded quotient"}
         if isinstance(r, (ttb.tensor, ttb.sptensor)):
             return bind.alpha(r, conv=bind.rat)
         return {"kind": "other", "type": type(r).__name__}
